@@ -603,6 +603,11 @@ func streamReader(c *corrOut, g *inputGen, r *rng, n int, thorough bool) {
 		evSGR(35, 10, 2, false), evSGR(0, 1000, 999, true), evX10(32, 33, 33), evX10(96, 255, 40),
 		g.evPaste([]byte("hello\x1b[Aworld")), evCtrl('\r', false), evCtrl(9, true), g.evSpace(true), evNUL(true),
 		evUnknownCSI([]byte("12;3"), []byte("$"), 'y'), g.evAltRune('x'), g.evAltEsc(),
+		// LONG reports and sequences (15 and more bytes pending at the boundary): four- and ten-digit
+		// parameters, leading zeros, long parameter lists
+		evSGR(35, 1000, 1000, false), evSGR(64, 9999, 9999, true), evSGR(255, 12345, 54321, false),
+		evSGRRaw("000", "0010", "0020", 'M', 0, 10, 20), evSGRRaw("2147483647", "1", "1", 'M', 2147483647, 1, 1),
+		evUnknownCSI([]byte("38;2;255;128;0;48;2;1;2;3;4;5"), nil, 'p'), evUnknownCSI([]byte("1;2;3;4;5;6;7;8;9;10;11;12;13;14;15;16"), []byte("$"), 'r'),
 	}
 	for ki, e := range kinds {
 		for o := 256 - len(e.bytes) - 1; o <= 256; o++ {
